@@ -238,8 +238,8 @@ func vfMsgTag(m any) (string, int) {
 		return "D:<nil>", -1
 	case *vivid.PipeResult:
 		return "PR", -1
-	case vfStreamEv:
-		return "SE", x.ID
+	case interface{ base() vfStreamEv }:
+		return "SE", x.base().ID
 	case *vfSched:
 		return "SC", x.ID
 	case *SchedulerMessage:
@@ -601,6 +601,8 @@ type vfGate struct {
 }
 
 func newVfGate() *vfGate { return &vfGate{entered: make(chan struct{}), release: make(chan struct{})} }
+
+func (e vfStreamEv) base() vfStreamEv { return e }
 
 type vfStreamEv0 struct{ vfStreamEv }
 type vfStreamEv1 struct{ vfStreamEv }
